@@ -1045,7 +1045,13 @@ where
                     ..
                 }) => elem_types
                     .get(num.value as usize)
-                    .map(|element| (*element.ty).clone()),
+                    .or_else(|| {
+                        // an index past the fixed elements selects from a trailing rest element
+                        elem_types
+                            .last()
+                            .filter(|element| element.ty.is_ts_rest_type())
+                    })
+                    .map(|element| (*tuple_element_type(&element.ty)).clone()),
                 TsType::TsKeywordType(TsKeywordType {
                     kind: TsKeywordTypeKind::TsNumberKeyword,
                     ..
@@ -1053,7 +1059,7 @@ where
                     TsUnionOrIntersectionType::TsUnionType(TsUnionType {
                         types: elem_types
                             .iter()
-                            .map(|TsTupleElement { ty, .. }| ty.clone())
+                            .map(|TsTupleElement { ty, .. }| tuple_element_type(ty))
                             .collect(),
                         span: DUMMY_SP,
                     }),
@@ -1444,5 +1450,23 @@ fn extract_type_ann_from_pat(pat: &Pat) -> Option<&TsTypeAnn> {
         Pat::Array(array) => array.type_ann.as_deref(),
         Pat::Assign(assign) => extract_type_ann_from_pat(&assign.left),
         _ => None,
+    }
+}
+
+/// The type of the values found at a tuple element: a rest element `...T[]` holds values of `T`.
+fn tuple_element_type(ty: &TsType) -> Box<TsType> {
+    match ty {
+        TsType::TsRestType(TsRestType { type_ann, span }) => {
+            Box::new(TsType::TsIndexedAccessType(TsIndexedAccessType {
+                span: *span,
+                readonly: false,
+                obj_type: type_ann.clone(),
+                index_type: Box::new(TsType::TsKeywordType(TsKeywordType {
+                    span: DUMMY_SP,
+                    kind: TsKeywordTypeKind::TsNumberKeyword,
+                })),
+            }))
+        }
+        _ => Box::new(ty.clone()),
     }
 }
